@@ -620,6 +620,12 @@ class O5mEncoder {
         }
         svar(o, static_cast<int64_t>(x.cs) - d_cs);
         d_cs = x.cs;
+        if (x.uid == 0 && x.user.empty()) {
+            // anonymous: the reference implementation (osmconvert, wo__author) writes the pair ("", "") through the string table
+            ch.note("o5m-anonymous-user-pair");
+            put_pair(o, "", "");
+            return;
+        }
         std::string uid;
         uvar(uid, x.uid);
         put_pair(o, uid, x.user);
